@@ -40,7 +40,9 @@ use futures::{StreamExt, TryStreamExt};
 use object_store::path::Path;
 
 use zarrs_storage::{
-    async_store_set_partial_values, byte_range::ByteRange, AsyncBytes, AsyncListableStorageTraits,
+    async_store_set_partial_values,
+    byte_range::{ByteRange, InvalidByteRangeError},
+    AsyncBytes, AsyncListableStorageTraits,
     AsyncReadableStorageTraits, AsyncWritableStorageTraits, MaybeAsyncBytes, StorageError,
     StoreKey, StoreKeyOffsetValue, StoreKeys, StoreKeysPrefixes, StorePrefix,
 };
@@ -104,6 +106,9 @@ impl<T: object_store::ObjectStore> AsyncReadableStorageTraits for AsyncObjectSto
         let Some(size) = self.size_key(key).await? else {
             return Ok(None);
         };
+        if let Some(byte_range) = byte_ranges.iter().find(|r| !r.is_valid(size)) {
+            return Err(InvalidByteRangeError::new(*byte_range, size).into());
+        }
         let ranges = byte_ranges
             .iter()
             .map(|byte_range| byte_range.to_range(size))
